@@ -124,14 +124,14 @@ COUPLED_MAPS = {"unitball"}
 
 @st.composite
 def any_geom_spec(draw, max_dim=6, allow_mapped=True, kinds=None):
-    kinds = kinds or ["default", "cont1d", "discrete", "image", "image_vis", "default2d", "cont2d", "kl", "step", "mapped"]
+    kinds = kinds or ["default", "cont1d", "discrete", "image", "image_vis", "default2d", "cont2d", "kl", "step", "mapped", "mapped"]
     kind = draw(st.sampled_from(kinds))
     if kind == "mapped":
         if not allow_mapped:
             kind = "cont1d"
         else:
             base = draw(any_geom_spec(max_dim=max_dim, allow_mapped=False,
-                                      kinds=["cont1d", "discrete", "image", "cont2d", "kl", "step", "default"]))
+                                      kinds=["cont1d", "discrete", "image", "image", "cont2d", "kl", "step", "default"]))
             return {"kind": "mapped", "base": base, "map": draw(st.sampled_from(sorted(MAPS))),
                     "imap": draw(st.sampled_from([True, True, False]))}
     if kind in ("image", "default2d", "cont2d"):
